@@ -18,6 +18,10 @@ class SimAbort(BaseException):
     """the run is being torn down (deadlock / step budget); unwinds parked actors"""
 
 
+MUTATIONS = ("open-w", "write", "close-w", "mkdir", "replace", "rename", "unlink", "remove",
+             "rmdir", "truncate", "link", "symlink", "fsync")
+
+
 class Sim:
     def __init__(self):
         self.reset()
@@ -38,11 +42,35 @@ class Sim:
         self.quiet = 0           # >0: seams pass through silently (harness' own file work)
         self.clock = 0.0         # virtual seconds: advanced only by timed waits / sleeps
         self.max_clock = 3600.0
+        self.read_fault = None   # {"file": basename, "nth": n}: the n-th read request on it fails
+        self.watch_outside = False   # remember write-type operations outside the scratch root
+        self.outside_writes = []
 
     # ------------------------------------------------------------------ events
     def event(self, kind, file, *args, yield_=True):
         s = boot.STATE["sched"]
         actor = self.actor
+        plan = self.write_plan
+        if plan is not None and plan.get("at_event") is not None and kind in MUTATIONS \
+                and not plan.get("fired") and plan.get("actor") in (None, actor) \
+                and (actor, self.epoch) not in self.killed:
+            # crash point = "just before the n-th disk-mutating operation of the writer" (for a
+            # write: just after the chunk that the event reports, i.e. before the next one)
+            seen = plan.get("seen_events", 0)
+            plan["seen_events"] = seen + 1
+            if seen == plan["at_event"]:
+                plan["fired"] = True
+                plan["fired_at"] = [kind, str(file)]
+                self.fault(plan["kind"])
+                if plan["kind"] == "kill":
+                    self.log.append((len(self.log), actor, "kill-at-event", kind, file))
+                    self.kill_current()
+                    raise SimKill(kind, file)
+                if kind in ("open-w", "mkdir", "write"):
+                    import errno
+
+                    self.log.append((len(self.log), actor, "enospc-at-event", kind, file))
+                    raise OSError(errno.ENOSPC, "No space left on device (simulated)", str(file))
         self.log.append((len(self.log), actor, kind, file) + args)
         if len(self.log) > self.max_events:
             self.budget_hit = True
@@ -51,6 +79,22 @@ class Sim:
             raise SimAbort("event budget exceeded")
         if yield_ and s is not None and s.is_actor_thread():
             s.yield_point()
+
+    def read_request(self, path):
+        """called by the read-side seams before a read / ranged fetch is served: raises the
+        planned I/O error when this is the request the fault plan names"""
+        rf = self.read_fault
+        if rf is None or rf.get("fired") or not str(path).endswith("/" + rf["file"]):
+            return
+        seen = rf.get("seen", 0)
+        rf["seen"] = seen + 1
+        if seen == rf["nth"]:
+            import errno
+
+            rf["fired"] = True
+            self.fault("eio")
+            self.log.append((len(self.log), self.actor, "eio", str(path), seen))
+            raise OSError(errno.EIO, "Input/output error (simulated)", str(path))
 
     def kill_current(self):
         self.killed.add((self.actor, self.epoch))
